@@ -202,6 +202,7 @@ SOUP = [
     "a", "b", "{", "}", "(", ")", "[", "]", ";", ":", ",", " ", "\n", "@", "@media", "@import", "@charset ", "@page", "@namespace", "@font-face", "@x",
     "\"", "'", "\"s\"", "url(", "url(x)", "f(", "calc(", "rgb(", "var(", "not(", ":not(", "!", "!important", "#", "#fff", ".", "*", "|", ">", "+", "~", "=",
     "/*", "*/", "<!--", "-->", "\\", "\\41 ", "\\2d ", "\\2d", "\\31 ", "\\0 ", "\\a ", "\\7b ", "\\20 ", "\\3b", "\\10ffff ", "\\110000 ", "\\d800 ", "1", "1px", "50%", "-", "--", "u+0-7f", "é", "\u4e2d", "\U0001f600", "\x01", "\t", "\x0c", "\\\n", "/", "$", "&", "^=",
+    "\"}\"", "\"{\"", "'}'", "url(\"}\")", "\";\"", "\\z", "\\)", "\\\"", "**", "var(v,", "var(v, var(w, ", "@variables{v:1}", "@x \"}\";",
 ]
 
 
